@@ -94,6 +94,13 @@ struct FGen {
   int *havoc_id;
   const std::vector<Function> *callees = nullptr; // candidate callees
   std::vector<int> callee_idx;
+  // ARRAY profile: arrays with a uniform element size and a fixed valid range
+  struct ArrInfo {
+    std::string name;
+    long esz, n;
+    bool is_bool;
+  };
+  std::vector<ArrInfo> arrays;
 
   FGen(Rng &rr, const GenConfig &cc, int *aid, int *hid) : r(rr), c(cc), next_id(0), assert_id(aid), havoc_id(hid) {}
 
@@ -455,6 +462,20 @@ struct FGen {
       bools_rd.push_back(d.name);
       bools_wr.push_back(d.name);
     }
+    if (c.profile == GenConfig::ARRAY && !c.casts) {
+      for (int i = 0; i < 2; i++) {
+        VarDecl w;
+        w.name = pre + "w" + std::to_string(i);
+        w.width = 64;
+        f.vars.push_back(w);
+        wide.push_back(w.name);
+        VarDecl n;
+        n.name = pre + "n" + std::to_string(i);
+        n.width = 8;
+        f.vars.push_back(n);
+        narrow.push_back(n.name);
+      }
+    }
     if (c.casts) {
       VarDecl w;
       w.name = pre + "w0";
@@ -497,9 +518,289 @@ struct FGen {
     }
   }
 
+  // ---- ARRAY profile -------------------------------------------------------
+  void declare_arrays() {
+    int na = (int)r.range(1, 3);
+    // the element size is the byte width of the scalars stored in the array
+    // (array_adaptive types its cells by size): 4 for the 32-bit variables,
+    // 8 / 1 for the 64-bit / 8-bit ones
+    auto pick_esz = [&]() -> long {
+      unsigned k = (unsigned)r.below(10);
+      if (k < 2 && !wide.empty())
+        return 8;
+      if (k < 4 && !narrow.empty())
+        return 1;
+      return 4;
+    };
+    long esz0 = pick_esz(), n0 = (long)r.range(1, 6);
+    for (int i = 0; i < na; i++) {
+      ArrInfo a;
+      a.name = "A" + std::to_string(i);
+      // arrays of the same shape are frequent so that array_assign is possible
+      bool same = i > 0 && r.chance(2, 3);
+      a.esz = same ? esz0 : pick_esz();
+      a.n = same ? n0 : (long)r.range(1, 6);
+      a.is_bool = !bools_rd.empty() && r.chance(1, 5);
+      if (a.is_bool)
+        a.esz = 1;
+      VarDecl d;
+      d.name = a.name;
+      d.ty = a.is_bool ? Ty::ARR_BOOL : Ty::ARR_INT;
+      d.width = a.is_bool ? 1 : (int)a.esz * 8;
+      f.vars.push_back(d);
+      arrays.push_back(a);
+    }
+  }
+  // scalars whose width matches the elements of a
+  const std::string &elem_rd(const ArrInfo &a) {
+    if (a.esz == 8)
+      return wide[r.below(wide.size())];
+    if (a.esz == 1)
+      return narrow[r.below(narrow.size())];
+    return ird();
+  }
+  const std::string &elem_wr(const ArrInfo &a) {
+    if (a.esz == 8)
+      return wide[r.below(wide.size())];
+    if (a.esz == 1)
+      return narrow[r.below(narrow.size())];
+    return iwr();
+  }
+  LinExp arr_value(const ArrInfo &a) {
+    if (a.is_bool) {
+      if (r.coin())
+        return LinExp::var(bools_rd[r.below(bools_rd.size())]);
+      return LinExp(mpz_class(r.coin() ? 1 : 0));
+    }
+    if (r.coin())
+      return LinExp::var(elem_rd(a));
+    if (a.esz == 1)
+      return LinExp(mpz_class((long)r.range(0, 100)));
+    return LinExp(constant());
+  }
+  Stmt arr_init(const ArrInfo &a) {
+    Stmt s = mk(Op::ARR_INIT);
+    s.v = {a.name};
+    s.e = {LinExp(mpz_class(0)), LinExp(mpz_class((a.n - 1) * a.esz)), arr_value(a)};
+    s.n = {mpz_class(a.esz)};
+    return s;
+  }
+  // an index expression inside the valid range; symbolic ones come with the
+  // statements that bound the index variable
+  LinExp arr_index(const ArrInfo &a, std::vector<Stmt> &pre) {
+    unsigned k = (unsigned)r.below(100);
+    if (k < 45 || ints_wr.empty()) {
+      long cell = (long)r.range(0, a.n - 1);
+      if (r.chance(1, 40))
+        cell = a.n; // out of range: outside the model, must not be reported
+      return LinExp(mpz_class(cell * a.esz));
+    }
+    std::string i = iwr();
+    if (k < 80) { // i in [lo,hi] by assumption (any previous value)
+      if (r.coin()) {
+        Stmt h = mk(Op::HAVOC);
+        h.v = {i};
+        h.id = (*havoc_id)++;
+        pre.push_back(h);
+      }
+      long lo = (long)r.range(0, a.n - 1), hi = (long)r.range(lo, a.n - 1);
+      Stmt a1 = mk(Op::ASSUME);
+      a1.c.kind = LinCst::LEQ; // lo - i <= 0
+      a1.c.e = LinExp::var(i, -1);
+      a1.c.e.cst = lo;
+      pre.push_back(a1);
+      Stmt a2 = mk(Op::ASSUME);
+      a2.c.kind = LinCst::LEQ; // i - hi <= 0
+      a2.c.e = LinExp::var(i, 1);
+      a2.c.e.cst = -hi;
+      pre.push_back(a2);
+    } else { // i := select(0 <= j <= n-1 ? j : c)
+      std::string j = ird();
+      Stmt sel = mk(Op::SELECT);
+      sel.v = {i};
+      sel.c.kind = LinCst::LEQ;
+      sel.c.e = LinExp::var(j, 1);
+      sel.c.e.cst = -(a.n - 1);
+      sel.e = {LinExp::var(j), LinExp(mpz_class((long)r.range(0, a.n - 1)))};
+      pre.push_back(sel);
+      Stmt a1 = mk(Op::ASSUME);
+      a1.c.kind = LinCst::LEQ;
+      a1.c.e = LinExp::var(i, -1);
+      pre.push_back(a1);
+    }
+    if (a.esz == 1 && r.coin())
+      return LinExp::var(i);
+    if (r.coin())
+      return LinExp::var(i, mpz_class(a.esz)); // esz*i as an index expression
+    // idx := esz*i in a separate variable
+    std::string idx = iwr();
+    Stmt m = mk(Op::BINOP);
+    m.k = "mul";
+    m.v = {idx, i};
+    m.n = {mpz_class(a.esz)};
+    pre.push_back(m);
+    return LinExp::var(idx);
+  }
+  void gen_array_stmts(Block &b) {
+    if (arrays.empty())
+      return;
+    const ArrInfo &a = arrays[r.below(arrays.size())];
+    std::vector<Stmt> pre;
+    unsigned k = (unsigned)r.below(100);
+    Stmt s;
+    if (k < 35) { // load
+      s = mk(Op::ARR_LOAD);
+      std::string lhs;
+      if (a.is_bool) {
+        if (bools_wr.empty())
+          return;
+        lhs = bools_wr[r.below(bools_wr.size())];
+      } else
+        lhs = elem_wr(a);
+      LinExp idx = arr_index(a, pre);
+      s.v = {lhs, a.name};
+      s.e = {idx};
+      s.n = {mpz_class(a.esz)};
+      for (auto &x : pre)
+        b.stmts.push_back(x);
+      b.stmts.push_back(s);
+      if (!a.is_bool && r.chance(1, 3)) { // an assertion about the loaded value
+        Stmt as = mk(Op::ASSERT);
+        as.c = cond();
+        as.c.e.terms.clear();
+        as.c.e.add_term(lhs, r.coin() ? 1 : -1);
+        as.id = (*assert_id)++;
+        b.stmts.push_back(as);
+      }
+      return;
+    }
+    if (k < 70) { // store to one cell
+      s = mk(Op::ARR_STORE);
+      LinExp idx = arr_index(a, pre);
+      s.v = {a.name};
+      s.e = {idx, arr_value(a)};
+      s.n = {mpz_class(a.esz)};
+      s.f = (a.n == 1) && r.coin(); // strong update only where it is true
+    } else if (k < 82) { // range store with constant bounds
+      s = mk(Op::ARR_STORE_RANGE);
+      long lo = (long)r.range(0, a.n - 1), hi = (long)r.range(lo, a.n - 1);
+      s.v = {a.name};
+      s.e = {LinExp(mpz_class(lo * a.esz)), LinExp(mpz_class(hi * a.esz)), arr_value(a)};
+      s.n = {mpz_class(a.esz)};
+    } else if (k < 88 && a.esz == 1 && ints_wr.size() >= 2) { // symbolic range [i, j]
+      s = mk(Op::ARR_STORE_RANGE);
+      LinExp lo = arr_index(a, pre);
+      std::vector<Stmt> pre2;
+      LinExp hi = arr_index(a, pre2);
+      for (auto &x : pre2)
+        pre.push_back(x);
+      if (!lo.is_const() && !hi.is_const() && (!lo.is_var() || !hi.is_var()))
+        return;
+      Stmt ord = mk(Op::ASSUME); // lo <= hi
+      ord.c.kind = LinCst::LEQ;
+      ord.c.e = lo;
+      for (auto &t : hi.terms)
+        ord.c.e.add_term(t.first, -t.second);
+      ord.c.e.cst -= hi.cst;
+      pre.push_back(ord);
+      s.v = {a.name};
+      s.e = {lo, hi, arr_value(a)};
+      s.n = {mpz_class(a.esz)};
+    } else if (k < 95) { // array copy
+      std::vector<const ArrInfo *> cand;
+      for (auto &o : arrays)
+        if (o.name != a.name && o.is_bool == a.is_bool && o.esz == a.esz && o.n == a.n)
+          cand.push_back(&o);
+      if (cand.empty())
+        return;
+      s = mk(Op::ARR_ASSIGN);
+      s.v = {a.name, cand[r.below(cand.size())]->name};
+    } else { // re-initialisation
+      s = arr_init(a);
+    }
+    for (auto &x : pre)
+      b.stmts.push_back(x);
+    b.stmts.push_back(s);
+  }
+  // for (i = 0; i < n; i++) { A[esz*i] := v  |  x := A[esz*i] } on the template shape
+  void add_array_template() {
+    if (arrays.empty() || f.blocks.size() < 4 || ints_wr.empty())
+      return;
+    auto &b0 = f.blocks[0];
+    auto &b1 = f.blocks[1];
+    if (b0.succs.size() != 1 || b0.succs[0] != "b1" || b1.succs.size() != 2)
+      return;
+    const ArrInfo &a = arrays[r.below(arrays.size())];
+    std::string i = iwr();
+    Stmt init = mk(Op::ASSIGN);
+    init.v = {i};
+    init.e = {LinExp(mpz_class(0))};
+    b0.stmts.push_back(init);
+    for (size_t s = 0; s < 2; s++) {
+      Block *g = f.block(b1.succs[s]);
+      if (!g)
+        continue;
+      Stmt as = mk(Op::ASSUME);
+      as.c.e = LinExp::var(i);
+      as.c.e.cst = -a.n; // i - n < 0
+      as.c.kind = LinCst::LT;
+      if (s == 1)
+        as.c = negate(as.c);
+      if (g->label[0] == 'g')
+        g->stmts.clear();
+      g->stmts.insert(g->stmts.begin(), as);
+    }
+    Block *body = f.block("b2");
+    if (!body)
+      return;
+    // the body must not disturb the counter: drop statements writing i
+    std::vector<Stmt> keep;
+    for (auto &st : body->stmts)
+      if (st.v.empty() || st.v[0] != i || st.op == Op::ASSERT || st.op == Op::ASSUME)
+        keep.push_back(st);
+    body->stmts = keep;
+    Stmt st;
+    if (r.chance(2, 3)) {
+      st = mk(Op::ARR_STORE);
+      st.v = {a.name};
+      LinExp val = (a.is_bool || a.esz != 4) ? arr_value(a) : (r.coin() ? LinExp::var(i) : arr_value(a));
+      st.e = {LinExp::var(i, mpz_class(a.esz)), val};
+      st.n = {mpz_class(a.esz)};
+    } else {
+      st = mk(Op::ARR_LOAD);
+      std::string lhs;
+      if (a.is_bool) {
+        if (bools_wr.empty())
+          return;
+        lhs = bools_wr[r.below(bools_wr.size())];
+      } else {
+        std::vector<std::string> c2;
+        for (auto &x : (a.esz == 8 ? wide : a.esz == 1 ? narrow : ints_wr))
+          if (x != i)
+            c2.push_back(x);
+        if (c2.empty())
+          return;
+        lhs = c2[r.below(c2.size())];
+      }
+      st.v = {lhs, a.name};
+      st.e = {LinExp::var(i, mpz_class(a.esz))};
+      st.n = {mpz_class(a.esz)};
+    }
+    body->stmts.push_back(st);
+    Stmt inc = mk(Op::BINOP);
+    inc.k = "add";
+    inc.v = {i, i};
+    inc.n = {mpz_class(1)};
+    body->stmts.push_back(inc);
+  }
+
   void fill_block(Block &b, int nst) {
     for (int i = 0; i < nst; i++) {
       Stmt s;
+      if (c.profile == GenConfig::ARRAY && r.chance(2, 5)) {
+        gen_array_stmts(b);
+        continue;
+      }
       if (callees && !callee_idx.empty() && r.chance(1, 4)) {
         if (gen_call(s))
           b.stmts.push_back(s);
@@ -691,9 +992,20 @@ struct FGen {
     for (size_t i = 0; i < nmain; i++)
       fill_block(f.blocks[i], (int)r.range(0, c.max_stmts));
     add_guards();
-    if (tmpl_shape && c.templates)
-      add_template_code();
+    if (tmpl_shape && c.templates) {
+      if (c.profile == GenConfig::ARRAY && r.chance(2, 3))
+        add_array_template();
+      else
+        add_template_code();
+    }
     place_asserts();
+    if (c.profile == GenConfig::ARRAY) {
+      // every array starts initialised (reading a never-initialised array is outside the model)
+      std::vector<Stmt> inits;
+      for (auto &a : arrays)
+        inits.push_back(arr_init(a));
+      f.blocks[0].stmts.insert(f.blocks[0].stmts.begin(), inits.begin(), inits.end());
+    }
   }
 };
 
@@ -713,6 +1025,8 @@ Program generate_program(Rng &r, const GenConfig &c) {
                    c.func_decl && c.nbools ? (int)r.range(0, 1) : 0, true);
     if (c.func_decl && g.f.inputs.empty() && g.f.outputs.empty())
       g.f.name = ""; // crab treats an empty declaration as "no declaration"
+    if (c.profile == GenConfig::ARRAY)
+      g.declare_arrays();
     g.generate_body();
     p.funcs.push_back(g.f);
     return p;
